@@ -149,7 +149,7 @@ def extractTable (t : Txt) : Option (List (List Txt) × List (Nat × Char × Txt
     match scan .out r with
     | none => none
     | some (entries, r1) =>
-      match dropPrefix? (tableMid.drop 1) r1 with
+      match dropPrefix? tableMidRest r1 with
       | none => none
       | some r2 =>
         match dropSuffix? tableEnd r2 with
